@@ -12,6 +12,7 @@ func genC01(seed uint64, tier string) Plan {
 	g := newGen(seed)
 	p := Plan{Prop: "C01", Seed: seed, Cfg: g.cfgStd(), Seg: pick(g, []int{0, 0, 2, 2, 1})}
 	p.Conns = g.conns(p.Cfg, 3)
+	g.gete = p.Cfg.Shape == "l1only" && p.Cfg.L1 != "chunked"
 	nkeys := 1 + g.n(len(keyAlphabet))
 	keys := g.keys(nkeys)
 	nsteps := 4 + g.n(22)
